@@ -25,7 +25,12 @@ Record obs := MkObs {
   o_events : list entry;   (* Invoke / Finish in the order they happened *)
   o_leftover : N;          (* futures / tasks still not done at the end *)
   o_changed : bool;        (* the result differed between its completion and the end of the run *)
-  o_eager : list tid       (* submitted calls that completed before submit returned *)
+  o_eager : list tid;      (* submitted calls that completed before submit returned *)
+  o_bad : list path        (* list fields containing an item that cannot be completed (the union's
+                              resolve_type raises a ResolverError): the program lists only the items
+                              before it -- they are started and run to completion, later ones never
+                              start; per the library's policy the field is then null with exactly
+                              one error at its path (fix_val) *)
 }.
 
 (* ---- combinator-level cases (layer 1): a script of chain / gather_futures /
@@ -124,13 +129,46 @@ Definition prog_mut (p : prog) : bool := match p with Prog m _ => m end.
 Definition clean (o : obs) : bool :=
   N.eqb (o_leftover o) 0 && negb (o_changed o).
 
+(* the library's policy for a list with an item that cannot be completed, applied to the
+   data the machine computed for the truncated list *)
+Definition mem_path (p : path) (l : list path) : bool := existsb (path_eqb p) l.
+Fixpoint fix_val (bad : list path) (p : path) (v : val) {struct v} : val * list entry :=
+  match v with
+  | VObj kvs =>
+      let '(kvs', es) :=
+        (fix go (kvs : list (N * val)) : list (N * val) * list entry :=
+           match kvs with
+           | [] => ([], [])
+           | (k, x) :: r =>
+               let p' := p ++ [k] in
+               let '(x', e1) :=
+                 match x with
+                 | VList _ => if mem_path p' bad then (VNull, [LErr p' EResolver]) else fix_val bad p' x
+                 | _ => fix_val bad p' x
+                 end in
+               let '(r', e2) := go r in ((k, x') :: r', e1 ++ e2)
+           end) kvs in
+      (VObj kvs', es)
+  | VList l =>
+      let '(l', es) :=
+        (fix go (i : N) (l : list val) : list val * list entry :=
+           match l with
+           | [] => ([], [])
+           | x :: r => let '(x', e1) := fix_val bad (p ++ [i]) x in
+                       let '(r', e2) := go (N.succ i) r in (x' :: r', e1 ++ e2)
+           end) 0%N l in
+      (VList l', es)
+  | _ => (v, [])
+  end.
+
 (* outcome allowed by the schedule-free characterisation (theorems C08_confluence,
    C08_unexpected): blocking data, the blocking errors and events in any order;
    or a failure carrying one of the program's exceptions *)
 Definition agree_bs (p : prog) (o : obs) : bool :=
   match bs_prog p, o_core o with
-  | (Some v, l), OData v' es =>
-      val_eqb v v' && perm_eqb (errs_of l) es && perm_eqb (events_of l) (o_events o)
+  | (Some v0, l), OData v' es =>
+      let '(v, extra) := fix_val (o_bad o) [] v0 in
+      val_eqb v v' && perm_eqb (errs_of l ++ extra) es && perm_eqb (events_of l) (o_events o)
   | (None, _), OFail x => mem_N x (exn_tags_fs (prog_fields p))
   | _, _ => false
   end.
@@ -178,8 +216,9 @@ Definition agree_run (p0 : prog) (o : obs) : bool :=
       match pending (ms s), orphans (ms s) with
       | [], [] =>
           match term s, o_core o with
-          | Val v, OData v' es =>
-              val_eqb v v' && perm_eqb (errs_of (log (ms s))) es
+          | Val v0, OData v' es =>
+              let '(v, extra) := fix_val (o_bad o) [] v0 in
+              val_eqb v v' && perm_eqb (errs_of (log (ms s)) ++ extra) es
               && perm_eqb (events_of (log (ms s))) (o_events o)
           | Exn _, OFail x => mem_N x (raised (ms s))
           | _, _ => false
